@@ -1740,7 +1740,7 @@ const WHOLE_VIAS: [&str; 19] = [
 
 /// `TensorView::reorder` / `transpose` (copies into a new tensor) against the adaptor they
 /// materialise (`TensorAccess` / `TensorTranspose` over the view)
-fn copy_op<const D: usize>(v: &Dyn<D>, kind: &str, names: &[&'static str]) -> String {
+fn copy_op<const D: usize>(v: &Dyn<D>, kind: &str, names: &[&'static str], via: &str) -> String {
     if names.len() != D {
         return "skip".into();
     }
@@ -1751,7 +1751,14 @@ fn copy_op<const D: usize>(v: &Dyn<D>, kind: &str, names: &[&'static str]) -> St
     let arr: [&'static str; D] = names_array(names);
     let r = catch(|| {
         let view = TensorView::from(v);
-        let copy: Tensor<u64, D> = if kind == "reorder" { view.reorder(arr) } else { view.transpose(arr) };
+        let copy: Tensor<u64, D> = match (kind, via) {
+            // the same copy by way of the maps of `TensorAccess`
+            ("reorder", "access_map") => TensorAccess::from(v, arr).map(|x| x),
+            ("reorder", "access_map_with_index") => TensorAccess::from(v, arr).map_with_index(|_, x| x),
+            ("reorder", "index_by_map") => view.index_by(arr).map(|x| x),
+            ("reorder", _) => view.reorder(arr),
+            _ => view.transpose(arr),
+        };
         let describe_against = |adaptor: &dyn TensorRef<u64, D>| -> String {
             let shape = adaptor.view_shape();
             if copy.shape() != shape {
@@ -2253,10 +2260,11 @@ impl Runner {
                 let kind = &op[5..];
                 let names = parse_names(names);
                 match self.stack_mut().last() {
-                    Some(top) => dv_each!(top, v => copy_op(v, kind, &names)),
+                    Some(top) => dv_each!(top, v => copy_op(v, kind, &names, via)),
                     None => "skip".into(),
                 }
             }
+            ["api_surface", ..] => api_surface_answer(),
             ["sources", ..] => self.sources(if via.starts_with("owned") { 2 } else { 1 }),
             ["length_of", name, ..] => {
                 let name = intern(name);
@@ -2447,13 +2455,17 @@ impl Script {
     }
 }
 
-const STATIC_KEYS: [&str; 19] = [
+const STATIC_KEYS: [&str; 28] = [
     "stack_tuple2_refs", "stack_tuple3_mixed", "stack_tuple4_owned", "stack_array_boxed_ref",
     "chain_tuple2_mut", "chain_tuple3_refs", "chain_tuple4_owned", "chain_array3_refs",
     "matrix_backed", "tensor_methods", "matrix_of_tensor_view", "rename_setters",
     "reverse_swap_source", "record_display_map", "boxed_dyn_ref", "shared_receivers",
     "matrix_stacks_typed", "same_source_twice", "adversarial_names_shared",
+    "api_access", "api_transpose", "api_view_shared", "api_view_mut", "api_adaptors", "api_zip", "api_iterators",
+    "api_wrappers", "api_interop",
 ];
+
+include!("c02_api.rs");
 
 fn static_case(key: &str) -> Vec<(String, String)> {
     let mut s = Script(vec![]);
@@ -2925,6 +2937,7 @@ fn static_case(key: &str) -> Vec<(String, String)> {
             let vm: TensorView<u64, &mut Tensor<u64, 2>, 2> = TensorView::from(&mut t3);
             let _ = vm;
         }
+        other if other.starts_with("api_") => api_case(other, &mut s),
         other => panic!("unknown static case {}", other),
     }
     s.0
@@ -2940,4 +2953,8 @@ mod generator;
 pub fn gen(g: &mut Gen) {
     silence_panics();
     generator::gen(g, &STATIC_KEYS, &|key| static_case(key).into_iter().map(|x| x.0).collect());
+    // the API surface: one line whose auxiliary part lists public items neither driven nor listed
+    g.op("@ case".into());
+    g.op("api_surface".into());
+    api_stats(g);
 }
